@@ -2,6 +2,7 @@ import PieModel.Props.C02
 import PieModel.Props.C02Once
 import PieModel.Props.C01Full
 import PieModel.Props.C01FullCex
+import PieModel.Props.C02IdemW
 #print axioms PieModel.C02_consistent_memo
 #print axioms PieModel.C02_consistent_memo_sound
 #print axioms PieModel.C02_settled
@@ -21,3 +22,20 @@ import PieModel.Props.C01FullCex
 #print axioms PieModel.C02_consistent_iff_demanded
 #print axioms PieModel.C02_minimal_history
 #print axioms PieModel.C02_minimal_needs_writeExact
+#print axioms PieModel.C02_settled_writes
+#print axioms PieModel.C02_idempotent_writes
+#print axioms PieModel.C02_idempotent_writes_fuel
+#print axioms PieModel.C02_idempotent_writes_any
+#print axioms PieModel.C02_idempotent_writes_any_fuel
+#print axioms PieModel.C02_idempotent_writes_history
+#print axioms PieModel.C02_same_session_writes
+#print axioms PieModel.C02_consistent_memo_writes
+#print axioms PieModel.C02_require_memo_writes
+#print axioms PieModel.tdClosedW
+#print axioms PieModel.requireAll_settled
+#print axioms PieModel.requireAll_quiet
+#print axioms PieModel.requireAll_fuel
+#print axioms PieModel.fullBody_respects_refl
+#print axioms PieModel.fullBody_writeExact_refl
+#print axioms PieModel.idemPie_inv
+#print axioms PieModel.idemPie_session
